@@ -310,10 +310,13 @@ var c04params = []string{
 	`{"name":"p","in":"query","type":"array","maxItems":1,"items":{"type":"integer","maximum":2}}`,
 	`{"name":"p","in":"query","type":"array","uniqueItems":true,"items":{"type":"array","items":{"type":"string","pattern":"^a"}}}`,
 	`{"name":"r","in":"formData","type":"string","required":true}`,
+	`{"name":"u","in":"query","type":"array","uniqueItems":true,"items":{"type":"string","minLength":1}}`,
 }
 
 var c04paramValues = []string{`nil`, `int32:1`, `int32:3`, `int64:2`, `float64:2.5`, `float64:2`, `string:aa`, `string:b`, `string:`, `string:2020-01-01`,
-	`[]string:aa|bb`, `[]string:a`, `[]int:1|3`, `[]int:1|1`, `[][]string:aa|b;aa`, `bool:true`}
+	`[]string:aa|bb`, `[]string:a`, `[]int:1|3`, `[]int:1|1`, `[][]string:aa|b;aa`, `bool:true`,
+	// untyped lists mixing scalars with equal composite members (uniqueItems looks at both), and the scalars alone
+	`json:["aa",["x"],["x"]]`, `json:["aa","bb"]`, `json:[1,{"k":1},{"k":1}]`, `json:[1,2]`}
 
 var c04headers = []string{
 	`{"type":"integer","format":"int32","maximum":2}`,
@@ -322,6 +325,7 @@ var c04headers = []string{
 	`{"type":"array","items":{"type":"string","enum":["aa"]}}`,
 	`{"type":"number","minimum":2.5}`,
 	`{"type":"boolean"}`,
+	`{"type":"array","uniqueItems":true,"items":{"type":"integer"}}`,
 }
 
 const c04specValid = `{"swagger":"2.0","info":{"title":"t","version":"1"},"paths":{"/a/{id}":{"get":{"operationId":"g","parameters":[{"name":"id","in":"path","required":true,"type":"string"}],"responses":{"200":{"description":"ok","schema":{"$ref":"#/definitions/A"}}}}}},"definitions":{"A":{"type":"object","required":["n"],"properties":{"n":{"type":"integer","default":1}}}}}`
